@@ -362,6 +362,21 @@ fn check_point(p: C, acc: &mut Acc) -> Result<(), String> {
         ensure!(nrel(c(zz.atan()), (x.atan(), 0.0)) <= 1e-9, "atan on the real axis");
         acc.hit("real-axis points");
     }
+    // ---- acosh on the real axis (either sign of the zero imaginary part): where Re acosh = 0 - the segment (-1, 1) - the right-inverse
+    // and range checks above admit w and -w alike; the closed form ln( z + sqrt(z-1) sqrt(z+1) ) does not: it is i acos x on the
+    // upper side ( +0 ), acosh|x| + i pi left of -1
+    if p.1 == 0.0 {
+        let s = if p.1.is_sign_negative() { -1.0 } else { 1.0 };
+        let x = p.0;
+        let want = if x >= 1.0 { (x.acosh(), 0.0) } else if x > -1.0 { (0.0, s * x.acos()) } else { ((-x).acosh(), s * PI) };
+        let got = c(zz.acosh());
+        // ( with -0 the value continuous from below - the conjugate, which the crate returns - and the one that ignores the sign of zero are both principal values )
+        let d = if s < 0.0 { cabs(sub(got, want)).min(cabs(sub(got, (want.0, -want.1)))) } else { cabs(sub(got, want)) };
+        ensure!(d <= 1e-8, "acosh({:?}) = {:?} but the closed form gives {:?} on this side of the real axis", p, got, want);
+        if x > -1.0 && x < 0.0 {
+            acc.hit("acosh on the segment (-1, 0) of the real axis");
+        }
+    }
     Ok(())
 }
 
@@ -375,7 +390,7 @@ fn main() {
     ctx.threshold("forward_trig_hyperbolic", FWD);
     ctx.threshold("inverse_roundtrip", INV);
     ctx.threshold("pow_vs_exp_w_ln_z", POW_TOL);
-    ctx.require(&["within 1e-9 of the real axis (both sides of the cuts)", "within 1e-9 of the imaginary axis", "within 1e-5 of a branch point", "quadrant 1", "quadrant 2", "quadrant 3", "quadrant 4", "real-axis points"]);
+    ctx.require(&["within 1e-9 of the real axis (both sides of the cuts)", "within 1e-9 of the imaginary axis", "within 1e-5 of a branch point", "quadrant 1", "quadrant 2", "quadrant 3", "quadrant 4", "real-axis points", "acosh on the segment (-1, 0) of the real axis"]);
     let pts = points(ctx.quick());
     ctx.lattice(
         "complex-plane lattice x 38 functions",
